@@ -32,8 +32,8 @@
      - the peak stack depth reached, relative to the starting sp.
    The model says what sp, initialized and the globals are after each API call under a POLICY:
      pop_at_halt      : does the VM_HALT branch pop the result slot?            (pinned tree: no)
-     restore_on_error : is sp put back where the call started when vm_execute fails, a failed
-                        global initialisation leaving the VM uninitialised?     (pinned tree: no)
+     restore_on_error : does nev_execute put sp (and initialized) back to what they were when the
+                        call started if vm_execute fails?                       (pinned tree: no)
    Compile-time determinism/isolation (flex/bison/utils.c globals) is NOT modelled here: no Gallina
    state expresses it; that part of C15 is correspondence-only (checks/c15.py, oracle 1). *)
 From Coq Require Import ZArith List Bool.
@@ -94,7 +94,13 @@ Section Api.
         (RAborted, s + pk, mkvm true (if restore_on_error pol then s else s + r) g' (stack_size v))
     end.
 
-  (* nev_execute *)
+  (* did the call come back with a result (or end the process)? *)
+  Definition returns (r : result) : bool :=
+    match r with RHalt _ => true | RDied => true | _ => false end.
+
+  (* nev_execute.  Under restore_on_error a FIRST call that fails — in the global initialisation or
+     in the entry stub — leaves the VM as vm_new made it (sp, initialized put back): initialisation
+     is redone by the next call. *)
   Definition execute (v : vm) (m : Module) (e : Entry) (a : Args) : result * Z * vm :=
     if initialized v then run_stub v m e a
     else
@@ -107,7 +113,8 @@ Section Api.
       | InitOk g =>
           let v1 := mkvm true (sp v + gdepth m) g (stack_size v) in
           let '(r, pk2, v2) := run_stub v1 m e a in
-          (r, Z.max (sp v + pk) pk2, v2)
+          (r, Z.max (sp v + pk) pk2,
+           if restore_on_error pol then (if returns r then v2 else v) else v2)
       end.
 
   (* a fresh VM right after a successful global initialisation, its globals replaced by g:
